@@ -114,6 +114,24 @@ pub mod verif_std {
         fn verif_into(self) -> (r: Vec<u8>) { self.into() }
     }
 
+    // Iterator::max over u32 items (vstd has no specification for it); the iterator argument is
+    // not modelled, so the result is only known to be an Option
+    #[verifier::external_body]
+    pub fn verif_iter_max<I: Iterator<Item = u32>>(i: I) -> (r: Option<u32>) { i.max() }
+
+    // rule A2: an iterator argument outside Verus' subset (chain / once / empty adaptors) is
+    // replaced by this opaque iterator: nothing is known about what it yields
+    pub struct VerifOpaqueIter { pub _p: u8 }
+    impl VerifOpaqueIter {
+        #[verifier::external_body]
+        pub fn new() -> Self { unimplemented!() }
+    }
+    impl Iterator for VerifOpaqueIter {
+        type Item = u32;
+        #[verifier::external_body]
+        fn next(&mut self) -> Option<u32> { unimplemented!() }
+    }
+
     pub broadcast proof fn arr_ext<const N: usize>(a: [u8; N], b: [u8; N])
         ensures #[trigger] a@ == #[trigger] b@ ==> a == b
     { if a@ == b@ { assert(a =~= b); } }
